@@ -274,3 +274,29 @@ fn c04_sized_as_bytes() {
     assert!(0u32.as_bytes().len() == 4 && <[u16; 3]>::default().as_bytes().len() == 6, "C04,C02: as_bytes() of a sized value is not size_of long");
     assert!(<B3 as FlatBase>::MIN_SIZE == 3 && <B3 as FlatBase>::ALIGN == 1 && <B3 as FlatSized>::SIZE == 3, "C04: constants of a sized struct differ from rustc's layout");
 }
+
+
+/// C04 (+C03/C05/C14): a four-field unsized struct whose every field offset needs rounding up: constants, image, read-back
+#[kani::proof]
+#[kani::unwind(10)]
+fn c04_uwide_layout() {
+    assert!(<UWide as FlatBase>::ALIGN == 8 && <UWide as FlatBase>::MIN_SIZE == 24, "C04: constants of UWide differ from the C layout rule");
+    let mut back = [0xEEu8; 56];
+    kani::assume((back.as_ptr() as usize) % 8 == 0);
+    let (b, x): (u32, u64) = (kani::any(), kani::any());
+    {
+        let w = UWide::new_in_place(&mut back[8..48], UWideInit { a: 0x11, b, c: 0x33, v: flat_vec![x] }).unwrap();
+        assert!(w.a == 0x11 && w.b == b && w.c == 0x33 && w.v.len() == 1 && w.v[0] == x, "C03: read-back differs from what was emplaced");
+        assert!(w.v.capacity() == 2, "C04: capacity of the tail vector differs from the C layout rule");
+        assert!(w.size() == 32, "C05: size() differs from the reference extent");
+    }
+    let m = &back[8..48];
+    assert!(m[0] == 0x11 && rd_u32(m, 4) == b && m[8] == 0x33 && rd_u32(m, 16) == 1, "C03,C04: image differs from the reference encoding");
+    let mut xs = [0u8; 8];
+    xs.copy_from_slice(&m[24..32]);
+    assert!(u64::from_ne_bytes(xs) == x, "C03,C04: element differs from the reference encoding");
+    // padding inside the struct and the bytes around the slice are never written
+    assert!(m[1] == 0xEE && m[3] == 0xEE && m[9] == 0xEE && m[15] == 0xEE && m[20] == 0xEE && m[23] == 0xEE, "C14: padding bytes were written");
+    assert!(back[7] == 0xEE && back[48] == 0xEE, "C14: bytes outside the slice were written");
+    assert!(UWide::validate(m).is_ok(), "C03: emplaced value does not validate");
+}
